@@ -249,6 +249,11 @@ def _judge(nd, S, obs, ts=1e-7, omit=False, oseed=0, use_defaults=False, tag=Non
                 obs.ev("explicit_zero_tolerance_on_tolerant_network")
     if iface is None:
         iface = _iface(net)
+    if oseed % 5 == 0:
+        from vlib.monitors import poke
+        poke(net, build.build_network(dict(nd, tol=nd.get("built_tol") or nd["tol"])))
+        poke(iface)
+        obs.ev("objects_printed_compared_hashed_before_use")
     Sm = np.array(S, dtype=float)
     T = Sm.shape[1]
     g = oracles.guard(L)
